@@ -27,6 +27,11 @@ def _cfg_sock(tier):
             out.append({'n': n, 'queries': q})
             if n >= 2:
                 out.append({'n': n, 'queries': q, 'calm': 1})      # the second wind given is a zero-speed (calm) segment
+                # two of the winds given are the SAME wind (equal speed and direction) over different stretches; with n = 3 in both
+                # arrangements (the equal pair adjacent in the input or not - after sorting they may or may not be neighbours)
+                out.append({'n': n, 'queries': q, 'same': (0, 1)})
+                if n >= 3:
+                    out.append({'n': n, 'queries': q, 'same': (0, 2)})
                 # until-distances that carry DIFFERENT unit labels: assigned to the public field after construction, or each wind built under another preferred unit
                 out.append({'n': n, 'queries': q, 'labels': ('assigned', ['Meter', 'Yard', 'Foot', 'Kilometer'][:n])})
                 out.append({'n': n, 'queries': q, 'labels': ('preferred', ['Yard', 'Meter', 'Inch', 'Foot'][:n])})
@@ -44,12 +49,12 @@ def _drive(sock, x, state):
          must_reach=['check:segment_in_force', 'switched', 'beyond_last', 'two_boundaries_in_one_step'],
          bounds='n = 0..3 (quick) / 0..4 (thorough) winds with symbolic until-distances in [0, 1e5] ft in every input order incl. duplicates; '
                 'n+2 (n+3) queries at symbolic non-decreasing positions starting at x = 0 (as _integrate issues them)',
-         assumptions=['wind vectors are identified by concrete distinct speeds 1..n at direction 0 (the sock only copies the vector); variants: the second wind a calm (zero-speed) segment; until-distances carrying different unit labels (assigned after construction / each wind built under another preferred unit)'])
-def c12_sock(ctx, n, queries, calm=None, labels=None):
+         assumptions=['wind vectors are identified by concrete distinct speeds 1..n at direction 0 (the sock only copies the vector); variants: the second wind a calm (zero-speed) segment; two of the winds equal (same speed and direction, different stretches); until-distances carrying different unit labels (assigned after construction / each wind built under another preferred unit)'])
+def c12_sock(ctx, n, queries, calm=None, labels=None, same=None):
     p, tc = pybc(), _tc()
     U = p.Unit
     until = [ctx.real(f'until{i}', 0, 1e5) for i in range(n)]
-    speed = lambda i: 0.0 if i == calm else float(i + 1)
+    speed = lambda i: 0.0 if i == calm else (float(same[0] + 1) if same is not None and i == same[1] else float(i + 1))
     if labels is None:
         winds = [p.Wind(U.FPS(speed(i)), U.Radian(0.0), U.Foot(until[i])) for i in range(n)]
     elif labels[0] == 'assigned':
